@@ -18,9 +18,9 @@ FULL STATEMENT (programs × schedules): while a database is open the number of o
 its directory is at most #live tables + a small constant, however many flush/compaction cycles happened; after
 `Close` none remain and both goroutines have ended; closing a table reader releases everything it opened incl.
 scanners.  Proved below for the model at QUIESCENT points (between steps) with the constant 1 (the WAL file; +2
-goroutines), for every step list; DURING a step the model holds transient handles, bounded in `step_peak_bounded`
-(a compaction of k tables holds 2k + 4 more at its peak by the code; the proved bound is the cruder 5k + 9, which
-counts every handle the cycle ever opens).
+goroutines), for every step list; DURING a step the model holds transient handles: `compaction_peak_bounded`
+(a compaction cycle over k tables holds at most 2k + 4 more than the steady set; exact value in the model 2k + 3:
+three writer descriptors, one reader mapping and one scanner per input) and `step_peak_bounded` (any step).
 -/
 import SST.Proofs.Handles
 namespace SST.C19
@@ -37,7 +37,7 @@ theorem handles_bounded (steps : List HStep) :
     (∀ h ∈ s.handles,
         h = .walFile s.walNo ∨ (∃ t ∈ s.db.tables, h = .tableMmap t.gen) ∨ h = .goroutine .flusher ∨
           (s.ticker = true ∧ h = .goroutine .ticker)) ∧
-      (s.handles.filter (fun h => !Proofs.Handles.isGoroutine h)).length ≤ s.db.tables.length + 1 ∧
+      (s.handles.filter (fun h => !isGoroutine h)).length ≤ s.db.tables.length + 1 ∧
       s.handles.length ≤ s.db.tables.length + 3 := by
   intro s
   have hp := Proofs.Handles.handles_perm_steady steps
@@ -95,8 +95,8 @@ theorem scan_after_close_stays_open :
 
 /-- transient handles: WHILE a step runs, never more than the handles before it plus everything the step opens.
 For a flush that is at most 8, for a compaction cycle of k selected tables at most 5k + 9 (crude: every handle
-the cycle ever opens is counted as if none was closed before the end; read off the code, the real peak is
-2k + 4: one reader mapping and one scanner per input, three writer descriptors, one transient). -/
+the cycle ever opens is counted as if none was closed before the end; read off the code, the model's
+exact peak is 2k + 3: one reader mapping and one scanner per input, three writer descriptors; see the example below). -/
 theorem step_peak_bounded (steps : List HStep) (st : HStep) :
     let s := hrun {} steps
     peak s.handles (phasesOf s st) ≤ s.db.tables.length + 3 + opens (phasesOf s st) := by
@@ -106,6 +106,23 @@ theorem step_peak_bounded (steps : List HStep) (st : HStep) :
   show peak s.handles (phasesOf s st) ≤ _
   have h2' : s.handles.length ≤ s.db.tables.length + 3 := h2
   omega
+
+/-- sharper, for the step with the largest transient set: while a compaction cycle runs in any reachable state,
+at most (#live tables + 3) + 2k + 4 handles are open, k = number of selected tables (so at most 3·#live + 7) -/
+theorem compaction_peak_bounded (steps : List HStep) (sizes : List Nat) :
+    let s := hrun {} steps
+    peak s.handles (phasesOf s (.op (.compact sizes)))
+      ≤ s.db.tables.length + 3 + (2 * (compactStep s.db sizes).2.length + 4) := by
+  intro s
+  have h2 : s.handles.length ≤ s.db.tables.length + 3 := Proofs.Handles.length_le_of_perm_steady steps
+  show peak s.handles (if usable s.db then compactPhases (compactStep s.db sizes).2 else []) ≤ _
+  split
+  · cases hsel : (compactStep s.db sizes).2 with
+    | nil => simp [compactPhases, peak]; omega
+    | cons first rest =>
+      have := Proofs.Handles.peak_compactPhases s.handles first rest
+      simp only [List.length_cons]; omega
+  · simp [peak]; omega
 
 theorem flush_opens_le (d : State) : opens (flushPhases d) ≤ 8 := Proofs.Handles.opens_flushPhases d
 
@@ -136,15 +153,15 @@ example :
 
 set_option maxRecDepth 10000 in
 /-- the hypotheses of `close_releases_all` / `handles_bounded` are met by a state that really holds handles:
-3 live tables, 6 handles, and the peak of the following compaction cycle of all three (3 + 2·3 + 1 = 10 more
-descriptors/mappings than before) -/
+3 live tables, 6 handles, and the peak of the following compaction cycle of all three (3 writer descriptors + one reader mapping and one
+scanner per input = 9 more than before) -/
 example :
     let prog : List HStep :=
       [.openTicker { threshold := 0, maxSize := 1000 }, .op (.putS [1] [2] true), .op (.putS [1] [3] true),
        .op (.putS [2] [3] true), .op .flush]
     (hrun {} prog).handles.length = 6 ∧ (hrun {} prog).db.tables.length = 3 ∧
       (compactStep (hrun {} prog).db [10, 10, 10]).2 = [1, 2, 3] ∧
-      peak (hrun {} prog).handles (phasesOf (hrun {} prog) (.op (.compact [10, 10, 10]))) = 16 ∧
+      peak (hrun {} prog).handles (phasesOf (hrun {} prog) (.op (.compact [10, 10, 10]))) = 15 ∧
       (hrun {} (prog ++ [.op (.compact [10, 10, 10])])).handles.length = 4 := by
   decide
 
